@@ -2,9 +2,9 @@
 
 use std::collections::BTreeMap;
 
-use crate::diff::DiffResult;
+use crate::diff::{DiffCfg, DiffResult};
 use crate::profiles;
-use crate::props::diffprop::DiffProp;
+use crate::props::diffprop::{DiffProp, Fam};
 
 type Ev = BTreeMap<&'static str, u32>;
 
@@ -50,8 +50,8 @@ pub fn c05() -> DiffProp {
     DiffProp {
         id: "C05",
         families: vec![
-            ("expr", profiles::c05(), 24_000, 500_000, 600),
-            ("expr_illtyped", { let mut p = profiles::c05(); p.illtyped = 6; p }, 6_000, 100_000, 600),
+            Fam::profile("expr", profiles::c05(), 24_000, 500_000, 600),
+            Fam::profile("expr_illtyped", { let mut p = profiles::c05(); p.illtyped = 6; p }, 6_000, 100_000, 600),
         ],
         rule: "cases: byte strings decoded by the grammar-based program generator (profile c05: every unary/binary/logical operator, ranges, indexing/slicing, interpolation, assignment and compound assignment, if/else-if/else, while, for, break, continue, blocks, return; operands of every value kind; minimal or redundant parentheses). Oracle: reference interpreter over the AST vs yarel on the rendered text: printed values, final outcome, error class and trace. Non-trivial: the run executed a break/continue/return/short-circuit or raised a built-in error; distinct by hash of the program text.",
         nontrivial: nt_c05,
@@ -63,7 +63,7 @@ pub fn c05() -> DiffProp {
 pub fn c06() -> DiffProp {
     DiffProp {
         id: "C06",
-        families: vec![("scopes", profiles::c06(), 24_000, 500_000, 700)],
+        families: vec![Fam::profile("scopes", profiles::c06(), 24_000, 500_000, 700)],
         rule: "cases: generated programs (profile c06: nested blocks, functions, lambdas and loops to depth 5, shadowing, closures stored in variables and called later, closures assigning captured variables, parameters and loop-body variables captured, global redefinition). Oracle: reference interpreter (variables are heap cells in persistent scope lists) vs yarel. Non-trivial: a variable was written from a call frame other than the one that declared it and a captured variable was read; distinct by program text.",
         nontrivial: nt_c06,
         floors: vec![("gen:shadow", 2000), ("gen:lambda", 3000), ("ev:captured_write", 300), ("ev:captured_read", 3000)],
@@ -74,7 +74,7 @@ pub fn c06() -> DiffProp {
 pub fn c07() -> DiffProp {
     DiffProp {
         id: "C07",
-        families: vec![("classes", profiles::c07(), 20_000, 400_000, 900)],
+        families: vec![Fam::profile("classes", profiles::c07(), 20_000, 400_000, 900)],
         rule: "cases: generated programs (profile c07: class hierarchies with overriding, fields shadowing methods, static methods and Self, default and explicit constructors with and without super.new, super.m() and bound super.m, self-dispatch, bound methods stored and called later, wrong arity, unknown members, type() and derives()). Oracle: reference interpreter vs yarel. Non-trivial: a super call, a method found in an ancestor, or a bound method call was executed; distinct by program text.",
         nontrivial: nt_c07,
         floors: vec![("gen:class_derived", 1500), ("ev:super_call", 300), ("ev:inherited_lookup", 1000), ("ev:bound_call", 1000), ("gen:static_method", 1000)],
@@ -86,8 +86,8 @@ pub fn c08() -> DiffProp {
     DiffProp {
         id: "C08",
         families: vec![
-            ("exceptions", profiles::c08(), 20_000, 400_000, 800),
-            ("exceptions_triggers", profiles::with_triggers(profiles::c08()), 4_000, 60_000, 800),
+            Fam::profile("exceptions", profiles::c08(), 20_000, 400_000, 800),
+            Fam::profile("exceptions_triggers", profiles::with_triggers(profiles::c08()), 4_000, 60_000, 800),
         ],
         rule: "cases: generated programs (profile c08: try/catch, try/finally, try/catch/finally nested and interleaved with loops, functions and closures; explicit throws of any value, built-in failures, throws from callees; rethrow). Family 'exceptions' keeps recorded-defect shapes off, 'exceptions_triggers' turns them on and counts failures that match a recorded finding. Oracle: reference interpreter (finally always runs once, then the saved outcome continues) vs yarel. Non-trivial: an exception was caught with >=2 try statements active, or from a callee, or a finally ran with a pending outcome; distinct by program text.",
         nontrivial: nt_c08,
@@ -99,7 +99,7 @@ pub fn c08() -> DiffProp {
 pub fn c09() -> DiffProp {
     DiffProp {
         id: "C09",
-        families: vec![("fibers", profiles::c09(), 16_000, 300_000, 800)],
+        families: vec![Fam::profile("fibers", profiles::c09(), 16_000, 300_000, 800)],
         rule: "cases: generated programs (profile c09: fibers whose bodies yield from loops, nested function frames and try blocks, return values, take parameters; drivers that call with and without values, too few/many times, with wrong argument counts, query has_finished). Oracle: reference interpreter with stackful coroutines vs yarel. Non-trivial: >=2 yields and >=3 switches, or a rejected misuse next to successful transfers; distinct by program text.",
         nontrivial: nt_c09,
         floors: vec![("ev:fiber_yielded", 5000), ("ev:fiber_returned", 1000), ("ev:fiber_call_finished", 300), ("gen:yield_nested_frame", 500), ("gen:try_spans_yield", 500)],
@@ -110,10 +110,85 @@ pub fn c09() -> DiffProp {
 pub fn c18() -> DiffProp {
     DiffProp {
         id: "C18",
-        families: vec![("iteration", profiles::c18(), 20_000, 400_000, 700)],
+        families: vec![Fam::profile("iteration", profiles::c18(), 20_000, 400_000, 700)],
         rule: "cases: generated programs (profile c18: for loops over vectors, tuples, ascending/descending/empty ranges, strings with multi-byte characters, non-iterables; chains of map/filter ending in collect/reduce/for; break/continue/return inside loops; push during iteration). Oracle: reference interpreter, whose map/filter/reduce/collect are a frozen copy of the core library evaluated by the same tree walker, vs yarel. Non-trivial: an adapter chain over a non-vector iterable, or a break/continue executed inside a for loop; distinct by program text.",
         nontrivial: nt_c18,
         floors: vec![("gen:iter_chain", 5000), ("ev:for:range", 2000), ("ev:for:str", 300), ("ev:for:tuple", 300), ("ev:for:iter", 500)],
         assumptions: vec![],
+    }
+}
+
+fn nt_c12(l: &[&'static str], _e: &Ev, _d: &DiffResult) -> bool {
+    has(l, "get_after_remove") && l.iter().filter(|x| **x == "insert").count() >= 4
+}
+
+pub fn c12() -> DiffProp {
+    DiffProp {
+        id: "C12",
+        families: vec![Fam::custom("map_history", Box::new(crate::gen_map::program), 30_000, 500_000, 200)],
+        rule: "cases: histories (up to 60 operations on two maps) of literal construction, insert, remove, get, has_key, clear, len, keys/values/items and map == over a per-history key pool drawn from 44 key expressions: equal keys built differently (1, 2-1, 0.5+0.5; 0, -0, 0*-1; \"ab\", \"a\"+\"b\", a slice; equal tuples and nested tuples built separately; tuples with 0 vs -0), hash-colliding tuples, NaN, booleans, nil, classes, ranges, and unhashable values; a sixth of the histories use up to 48 distinct numeric keys to force growth. Oracle: association-list map with the language's == (reference interpreter); enumerations compared as multisets; unhashable keys must give ValueError and leave the map unchanged (final full scan). Non-trivial: a lookup after a removal with >=4 inserts; distinct by program text.",
+        nontrivial: nt_c12,
+        floors: vec![("gen:insert", 50_000), ("gen:get_after_remove", 20_000), ("gen:enumerate", 5_000), ("gen:map_eq", 3_000), ("ev:err:ValueError", 5_000)],
+        assumptions: vec!["at most two distinct ranges per history, so range identity (an 8-entry cache in yarel) coincides with structural equality"],
+    }
+}
+
+fn idx_of(bytes: &[u8]) -> u64 {
+    let mut b = [0u8; 8];
+    let n = bytes.len().min(8);
+    b[..n].copy_from_slice(&bytes[..n]);
+    u64::from_le_bytes(b)
+}
+
+fn cfg_no_range_identity() -> DiffCfg {
+    DiffCfg { range_identity_matters: false, fuel: 30_000_000, ..DiffCfg::default() }
+}
+
+fn nt_c13(_l: &[&'static str], _e: &Ev, d: &DiffResult) -> bool {
+    // the subject contains a multi-byte character
+    d.source.lines().next().map(|l| !l.is_ascii()).unwrap_or(false) || d.source.contains("from_")
+}
+
+pub fn c13() -> DiffProp {
+    use crate::gen_str::*;
+    let mut sweep3 = Fam::custom(
+        "string_sweep",
+        Box::new(|b: &[u8]| (string_sweep(&nth_string(idx_of(b)), true), vec!["sweep"])),
+        0, 0, 8,
+    );
+    // quick: all strings of <= 3 characters; thorough: <= 4 characters (341 strings)
+    sweep3.enumerated = Some((count_upto(3), count_upto(4), true));
+    sweep3.cfg = cfg_no_range_identity;
+    let mut sweep5 = Fam::custom(
+        "string_sweep_long",
+        Box::new(|b: &[u8]| {
+            // strings of exactly 4 (quick: every 7th) or 5 characters, slices strided
+            let i = idx_of(b);
+            (string_sweep(&nth_string(count_upto(3) + i * 7 % 1280), false), vec!["sweep_long"])
+        }),
+        0, 0, 8,
+    );
+    sweep5.enumerated = Some((40, 1280, false));
+    sweep5.cfg = cfg_no_range_identity;
+    let mut seq = Fam::custom(
+        "seq_sweep",
+        Box::new(|b: &[u8]| (seq_sweep(idx_of(b) as usize), vec!["seq"])),
+        0, 0, 8,
+    );
+    seq.enumerated = Some((5, 7, true));
+    seq.cfg = cfg_no_range_identity;
+    let mut conv = Fam::custom("conversions", Box::new(conversions), 6_000, 150_000, 120);
+    conv.cfg = cfg_no_range_identity;
+    let mut rnd = Fam::custom("random_ops", Box::new(random_ops), 4_000, 100_000, 160);
+    rnd.cfg = cfg_no_range_identity;
+    let mut gen5 = Fam::profile("general", { let mut p = profiles::c05(); p.illtyped = 4; p }, 4_000, 60_000, 500);
+    gen5.cfg = DiffCfg::default;
+    DiffProp {
+        id: "C13",
+        families: vec![sweep3, sweep5, seq, conv, rnd, gen5],
+        rule: "cases: (string_sweep, exhaustive) every string of <=3 characters (quick) / <=4 characters (thorough) over {a, é, €, 😀}, each with every index in [-len-2, len+2] and {0.5, -0.5, NaN, +-inf, +-2^63, 2^53, 1e300}, every slice (begin, end) pair in [-len-1, len+1]^2, find with every needle of <=2 characters from every start, replace, split, starts/ends_with with every needle, len/count_chars/classification/to_bytes/to_code_points/iteration/char_byte_index, byte and code-point round trips, wrong kinds and arities; (string_sweep_long) strings of 4-5 characters with strided slices; (seq_sweep, exhaustive) vec and tuple indexing, slicing and element assignment for lengths 0-4 (0-6 thorough); (conversions) to_num texts, from_utf8 with truncated/overlong/surrogate sequences, from_ascii, from_code_points; (random_ops) longer strings; (general) expression programs. Oracle: byte-level string model (harness/src/strmodel.rs, no std string searching) inside the reference interpreter; every result or error class printed and compared. Non-trivial: the subject contains a multi-byte character or a conversion is exercised; distinct by program text.",
+        nontrivial: nt_c13,
+        floors: vec![("ev:err:IndexError", 5_000), ("ev:err:ValueError", 500), ("ev:err:TypeError", 500)],
+        assumptions: vec!["from_ascii of 128..191 is not defined by any test and is excluded", "every string yarel prints reaches the harness as a Rust String, i.e. valid UTF-8, or the run panics"],
     }
 }
